@@ -381,7 +381,7 @@ func runCase(c *vrun.Case, s reconlib.Scenario, judge func(*reconlib.Outcome) vr
 
 func TestC05Reconnect(t *testing.T) {
 	e := vrun.LoadEnv()
-	meta := vrun.Meta{Property: "C05", Workload: "TestC05Reconnect", Total: e.Pick(300, 8000),
+	meta := vrun.Meta{Property: "C05", Workload: "TestC05Reconnect", Total: e.Pick(300, 40000),
 		Rule: "virtual time: base scenario (0-3 upstreams and 0-2 downstreams of all QoS with continuous traffic, acks partly withheld, a drawn subset of {OpenUpstream, OpenDownstream, SendMetadata, SendCall, SendCallAndWaitReplayCall} issued the moment the link dies, writes continuing during the outage) x 1-3 transport failures, each at a message boundary (direction, message class, ordinal, before/after) in one of 4 failure modes, with redial instant / 1 ms / 3 s / after 1-3 dial errors, resume conflicts 0/1/3, optionally a second failure inside the connect handshake of the retry, a resume exchange that is cut, or a resume the broker refuses. Oracle: recovery within 120 virtual seconds; strictly newer token on every connect; resume requests under the original stream id / alias; every stream either passes a probe after recovery (write+flush+ack, or a pushed chunk read) or was reported closed with an error - and only the stream whose resume was refused or cut may be; notifications pair up once per outage; outage calls succeed (or end with their own context), never with a connection error. non-trivial = at least one fault fired; distinct = (stream mix, outage calls, fault keys)",
 		Assumptions: []string{"bounded restatement of 'keeps working': within 120 virtual seconds after the last fault, with a cooperative broker",
 			"'once per outage' is counted on the client's own notifications (disconnected == reconnected); a stream's resumed notifications must equal the number of resume exchanges it completed on the wire (an outage that hits before a stream has resumed merges with the previous one for that stream)",
